@@ -830,6 +830,10 @@ class AdapterLookupBase:
 
     def _uncached_lookup(self, required, provided, name=''):
         required = tuple(required)
+        # Subscribe to the required specifications before computing
+        # the answer: a change to one of them that happens while (or
+        # right after) we compute must still invalidate what we cache.
+        self._subscribe(*required)
         result = None
         order = len(required)
         for registry in self._registry.ro:
@@ -846,8 +850,6 @@ class AdapterLookupBase:
                              order)
             if result is not None:
                 break
-
-        self._subscribe(*required)
 
         return result
 
@@ -866,6 +868,8 @@ class AdapterLookupBase:
 
     def _uncached_lookupAll(self, required, provided):
         required = tuple(required)
+        # See _uncached_lookup.
+        self._subscribe(*required)
         order = len(required)
         result = {}
         for registry in reversed(self._registry.ro):
@@ -878,8 +882,6 @@ class AdapterLookupBase:
             components = byorder[order]
             _lookupAll(components, required, extendors, result, 0, order)
 
-        self._subscribe(*required)
-
         return tuple(result.items())
 
     def names(self, required, provided):
@@ -887,6 +889,8 @@ class AdapterLookupBase:
 
     def _uncached_subscriptions(self, required, provided):
         required = tuple(required)
+        # See _uncached_lookup.
+        self._subscribe(*required)
         order = len(required)
         result = []
         for registry in reversed(self._registry.ro):
@@ -903,8 +907,6 @@ class AdapterLookupBase:
 
             _subscriptions(byorder[order], required, extendors, '',
                            result, 0, order)
-
-        self._subscribe(*required)
 
         return result
 
